@@ -38,8 +38,9 @@ func (t *Target) AccessDeniedHTTP(r *http.Request) bool {
 		return true
 	}
 
-	// check xff source if present
-	if xff := r.Header.Get("X-Forwarded-For"); xff != "" {
+	// check xff source if present. The header may be sent on several
+	// lines, e.g. by a proxy which adds its own line instead of appending.
+	if xff := strings.Join(r.Header.Values("X-Forwarded-For"), ","); xff != "" {
 		// Trusting XFF headers sent from clients is dangerous and generally
 		// bad practice.  Therefore, we cannot assume which if any of the elements
 		// is the actual client address.  To try and avoid the chance of spoofed
